@@ -59,7 +59,7 @@ CHECKS = {
              note="identities are real-analytic facts judged as lt/eq/gt (observation level); the bisection is bound for affine factor functions with dyadic coefficients; cuboidal semi-axes are taken as half-edges of a unit-volume cuboid (product 1), spheroid semi-axes as 4pi/3 abc = 1"),
  "C16": dict(cat="model_checking", design="3/C16", technique="TLA+ state machine of the StrainEnergy object (Elastic.tla: user inputs vs the derived, rotated data compute() works on) checked by TLC over all short setter/update/compute histories; real objects bound by trace validation (Elastic_Trace.tla) of every history of the same alphabet, with the held tensors identified by comparison with all candidates and the final energy compared with a canonically built object; Relations.tla acceptor for the stated identities",
              text="Partial claim. Decided with the specification: the energy does not depend on the order in which rotation, stiffness (6x6 or constants), shape and eigenstrain were supplied -- after every call of every history the tensors the object holds are those of the current inputs, and every compute equals that of a canonically built object. Observed under fixed tolerances (Relations.tla): non-negativity, cube/square scaling, 6x6 = 4th rank, both inversion routines, reduction to the homogeneous inclusion, isotropic-sphere closed form (Eshelby and spherical approximation), Eshelby tensor components, orientation independence, quadrature exactness up to the stated order, rank and modulus round trips.",
-             note="identities are real-analytic facts judged as lt/eq/gt (observation level, cubic stiffness, diagonal eigenstrain); open finding: the Lebedev tables are expanded into wrong point sets (rules not exact; Eshelby components and the 6x6 Bohm route deviate with the default rule) -- repair would break three repository tests that pin the faulty values; named deviation outside the property: update() rotates the stored applied stress again on every call"),
+             note="identities are real-analytic facts judged as lt/eq/gt (observation level, cubic stiffness, diagonal and shear eigenstrains, rotations about z and general rotations); open finding: the Lebedev tables are expanded into wrong point sets (rules not exact; Eshelby components deviate with the default rule) -- repair would break three repository tests that pin the faulty values; named deviation outside the property: update() rotates the stored applied stress again on every call"),
 }
 
 NOT_APPLICABLE = {
